@@ -29,6 +29,8 @@ N = {'quick': 1500, 'thorough': 50000}
 def gen_cases(tier, seed):
     for i in range(N[tier]):
         yield {'s': seed * 1000003 + i}
+    for i in range(max(6, N[tier] // 500)):
+        yield {'s': seed * 1000003 + i, 'big': True}
 
 
 def shard_setup(ctx):
@@ -55,7 +57,11 @@ def shard_teardown(ctx):
 
 def build(case):
     rng = random.Random('c11/%d' % case['s'])
-    f = D.gen_daqmx(rng, allow_drop=True, max_segs=4)
+    if case.get('big'):
+        # raw buffers of more than 32 KiB per chunk (thousands of rows): sizes and offsets beyond 16-bit ranges
+        f = D.gen_daqmx(rng, allow_drop=False, max_segs=2, max_chans=2, max_bufs=2, chunks=(1, 2), lens=(9000, 20000), relayout=False)
+    else:
+        f = D.gen_daqmx(rng, allow_drop=True, max_segs=4)
     # make some channels scalable: NI_Number_Of_Scales = ns+1, last scale Linear reading scaler j
     for ch in f.chans:
         ids = sorted(s['id'] for s in ch['scalers'])
